@@ -183,6 +183,58 @@ func runCorpus(b *fw.B, rootsOnly bool) {
 			spec *common.Spec
 		}{fmt.Sprintf("custom%d", i), customPreset(pr)})
 	}
+	// values that were judged one by one are decoded, encoded and hashed again by 8 goroutines at the same time (each from the bytes,
+	// into objects of its own): scratch space the library keeps between or during calls is the only thing such calls can share
+	type keptValue struct {
+		e      schemas.Entry
+		preset string
+		spec   *common.Spec
+		enc    []byte
+		root   common.Root
+	}
+	var keptValues []keptValue
+	defer func() {
+		if len(keptValues) == 0 {
+			return
+		}
+		b.Case("overlapped", fmt.Sprintf("%d retained values on 8 goroutines", len(keptValues)))
+		msgs := overlapped(8, len(keptValues), func(w, i int) string {
+			k := keptValues[(w*5+i)%len(keptValues)]
+			o := sszObj{k.spec, k.e.New()}
+			if err := o.deserialize(k.enc); err != nil {
+				return fmt.Sprintf("%s (%s preset): a canonical encoding is refused while other values are decoded at the same time: %v", k.e.Name, k.preset, err)
+			}
+			if rootsOnly {
+				if r := o.root(); r != k.root {
+					return fmt.Sprintf("%s (%s preset): HashTreeRoot gives %x while other values are hashed at the same time, %x alone", k.e.Name, k.preset, r[:6], k.root[:6])
+				}
+				return ""
+			}
+			out, err := o.serialize()
+			if err != nil || !bytes.Equal(out, k.enc) {
+				return fmt.Sprintf("%s (%s preset): decode then encode gives other bytes while other values are decoded and encoded at the same time (err %v)", k.e.Name, k.preset, err)
+			}
+			if bl, _ := o.lengths(); bl != uint64(len(k.enc)) {
+				return fmt.Sprintf("%s (%s preset): ByteLength reports %d for %d bytes while other values are decoded and encoded at the same time", k.e.Name, k.preset, bl, len(k.enc))
+			}
+			data, err := json.Marshal(o.obj)
+			if err != nil {
+				return fmt.Sprintf("%s (%s preset): JSON marshalling fails while other values are marshalled at the same time: %v", k.e.Name, k.preset, err)
+			}
+			o2 := sszObj{k.spec, k.e.New()}
+			if err := json.Unmarshal(data, o2.obj); err != nil {
+				return fmt.Sprintf("%s (%s preset): JSON unmarshalling fails while other values are unmarshalled at the same time: %v", k.e.Name, k.preset, err)
+			}
+			if out2, err := o2.serialize(); err != nil || !bytes.Equal(out2, k.enc) {
+				return fmt.Sprintf("%s (%s preset): the JSON form does not round-trip while other values make the same trip at the same time (err %v)", k.e.Name, k.preset, err)
+			}
+			return ""
+		})
+		b.Count("values_handled_while_others_are_handled", int64(8*len(keptValues)))
+		for _, m := range msgs {
+			b.Violate("overlapping-calls/"+firstWord(m), m, nil)
+		}
+	}()
 	for ei, e := range reg {
 		if ei%16 != b.Batch {
 			continue
@@ -231,6 +283,9 @@ func runCorpus(b *fw.B, rootsOnly bool) {
 				}
 				if rootsOnly {
 					corpusRoots(b, e, ps.name, ps.spec, sc, val, enc, o)
+					if (k == 1 || k == 2) && len(enc) <= 60000 {
+						b.NoPanic("root/panic/"+e.Name, func() { keptValues = append(keptValues, keptValue{e, ps.name, ps.spec, enc, o.root()}) })
+					}
 					continue
 				}
 				var out []byte
@@ -286,6 +341,9 @@ func runCorpus(b *fw.B, rootsOnly bool) {
 				corpusJSONMeaning(b, e, ps.name, sc, val, o)
 				if !corpusText(b, e, ps.name, ps.spec, enc, o) {
 					break
+				}
+				if (k == 1 || k == 2) && len(enc) <= 60000 {
+					keptValues = append(keptValues, keptValue{e, ps.name, ps.spec, enc, common.Root{}})
 				}
 				// malformed variants
 				if k%4 == 0 {
